@@ -3,6 +3,8 @@
 # Runs the property's check against a scratch worktree of /repo (HEAD + the seeded change) with a separate harness copy
 # and target dir, so /repo itself is never touched.  The scratch worktree lives in /tmp/repo2 (created on demand).
 set -u
+# one trial at a time: the scratch worktree and the harness copy are shared
+exec 9>/verif/.build/try_seed.lock; flock 9
 P=$1; PATCH=$(readlink -f "$2"); TIER=${3:-quick}
 R2=/tmp/repo2; H2=/verif/.build/harness2
 if [ ! -d $R2 ]; then git -C /repo worktree add -q $R2 HEAD; fi
